@@ -20,6 +20,11 @@ func init() { core.Register(c07{}) }
 
 func (c07) ID() string { return "C07" }
 
+// EvalFeatures names the counters of judged executions.
+func (c07) EvalFeatures() []string {
+	return []string{"save-points", "restore:fresh", "restore:mid-node", "restore:waiting-for-choice", "restore:waiting-for-command", "restore:ended", "restore:restored-before", "restore:donor-itself", "alias-probe-two-receivers", "unknown-node-restore-refused"}
+}
+
 func (c07) Cases(tier string) int {
 	if tier == "thorough" {
 		return 40000
